@@ -27,7 +27,7 @@ def main():
     tier = a[a.index("--tier") + 1] if "--tier" in a else "quick"
     dst = os.path.join(ROOT, "refactors", rid)
     os.makedirs(dst, exist_ok=True)
-    for f in ("patch.diff", "notes.md"):
+    for f in ("patch.diff", "notes.md", "check.py"):
         src = os.path.join(wt, "_seeded", f)
         if os.path.exists(src):
             shutil.copy(src, os.path.join(dst, f))
